@@ -101,6 +101,10 @@ def gen(rng, tier, i):
             text = 'sc %s %s %s' % (rng.choice(tags) if hk == 'x' else a, hk, _hook_script(rng, tags, st, ','))
         elif cls == 'hooks' and r < 0.22:
             text = 'setcs %s;%s' % (_hook_script(rng, tags, st, ','), mk())
+        elif cls == 'hooks' and r < 0.27:
+            # move to a destination given by file name: it is loaded on the way, and its create() may destruct or move the mover
+            hs = rng.choice(('wdest %s' % a, 'wdest %s,walk' % a, 'wmove %s %s' % (a, b), _hook_script(rng, tags, st, ',')))
+            text = 'setcs %s;wmoves %s %s' % (hs, a, rng.choice(('/w/b1', '/w/b2', '/w/b3')))
         elif r < 0.32: text = mk()
         elif r < 0.55: text = 'wmove %s %s' % (a, b)
         elif r < 0.60: text = 'wmove %s %s' % (a, a)
